@@ -24,8 +24,9 @@ pub open spec fn rel_co64(d: Seq<u8>, x: Option<Co64Box>, g: Option<int>) -> boo
 pub open spec fn rel_some<T>(x: Option<T>, g: Option<int>) -> bool { x is Some <==> g is Some }
 
 /// sample table box whose body starts at q: every table is the decoding of the last child of its type
+pub open spec fn rel_stsd(d: Seq<u8>, x: Option<StsdBox>, g: Option<int>) -> bool { (x is Some <==> g is Some) && (x matches Some(b) ==> stsd_at(d, child_q(d, g->Some_0), b)) }
 pub open spec fn stbl_at(d: Seq<u8>, q: int, size: u64, b: StblBox) -> bool {
-    &&& child_at(d, q, size, BoxType::StsdBox) is Some
+    &&& rel_stsd(d, Some(b.stsd), child_at(d, q, size, BoxType::StsdBox))
     &&& rel_stts(d, Some(b.stts), child_at(d, q, size, BoxType::SttsBox))
     &&& rel_ctts(d, b.ctts, child_at(d, q, size, BoxType::CttsBox))
     &&& rel_stss(d, b.stss, child_at(d, q, size, BoxType::StssBox))
